@@ -15,7 +15,10 @@ vars == <<ex, depth, lane>>
 
 Init == ex \in Starts /\ depth = 0 /\ lane \in 1..Lanes
 (* one random growth step per state (TLC!RandomElement): every lane is one random program per depth *)
-Grow == depth < MaxDepth /\ ex' = RandomElement(Steps(ex)) /\ depth' = depth + 1 /\ lane' = lane
+PickOrFirst(cands, x) == IF cands = {} THEN Call(x, "first", <<>>) ELSE RandomElement(cands)
+Grow == /\ depth < MaxDepth
+        /\ \E c \in {RandomElement(1..NCat)} : \E s \in {PickOrFirst(StepCat(ex, c), ex)} : ex' = s
+        /\ depth' = depth + 1 /\ lane' = lane
 Next == Grow
 Spec == Init /\ [][Next]_vars
 
